@@ -23,15 +23,16 @@ EXTENDS Knn, CoverTree, TLC, Json
 
 CONSTANTS MaxN,     \* number of points 2..MaxN
           Side,     \* coordinates 0..Side-1
-          Dim       \* 1 or 2
+          Dim,      \* 1 or 2
+          QMargin   \* queries range over the lattice widened by QMargin on every side
 
 VARIABLES data, tree, pc
 vars == <<data, tree, pc>>
 
 Coord == 0..(Side - 1)
 Points == IF Dim = 1 THEN { <<x>> : x \in Coord } ELSE { <<x, y>> : x, y \in Coord }
-(* queries: the lattice and a margin of one around it *)
-QCoord == (-1)..Side
+(* queries: the lattice and a margin around it *)
+QCoord == (-QMargin)..(Side - 1 + QMargin)
 Queries == IF Dim = 1 THEN { <<x>> : x \in QCoord } ELSE { <<x, y>> : x, y \in QCoord }
 
 Dm(D) == [i \in 1..Len(D) |-> [j \in 1..Len(D) |-> Key("man", 1, D[i], D[j])]]
@@ -41,23 +42,22 @@ Init == /\ data \in UNION { [1..n -> Points] : n \in 2..MaxN }
         /\ BuildDefined(Dm(data))
         /\ tree = Leaf(0) /\ pc = "new"
 
+(* the build must consume every point: nothing may be left in the point set *)
 BuildStep == /\ pc = "new"
-             /\ tree' = Build(Dm(data)).node
+             /\ LET b == Build(Dm(data))
+                IN  tree' = IF b.ps = <<>> THEN b.node ELSE Leaf(0)
              /\ pc' = "built"
              /\ UNCHANGED data
 Next == BuildStep
 Spec == Init /\ [][Next]_vars
 
-TreeOK == pc = "built" =>
-            /\ Build(Dm(data)).ps = <<>>
-            /\ TreeInv(Dm(data), tree)
+TreeOK == pc = "built" => TreeInv(Dm(data), tree)
 
-MaxDist == Dim * (Side + 1)
-SearchOK == pc = "built" =>
-    \A q \in Queries :
-        LET dq == Dq(data, q) IN
-        /\ \A k \in 1..Len(data) : IsKnn(dq, k, Find(dq, tree, k))
-        /\ \A r \in 1..MaxDist : IsRadius(dq, r, FindRadius(dq, tree, r))
+MaxDist == Dim * (Side - 1 + QMargin)
+SearchOKFor(dq) ==
+    /\ \A k \in 1..Len(data) : IsKnn(dq, k, Find(dq, tree, k))
+    /\ \A r \in 1..MaxDist : IsRadius(dq, r, FindRadius(dq, tree, r))
+SearchOK == pc = "built" => \A q \in Queries : SearchOKFor(Dq(data, q))
 
 Replay == pc = "built" => PrintT(<<"REPLAY", ToJson([D |-> data, side |-> Side, tree |-> tree])>>)
 =============================================================================
